@@ -19,7 +19,7 @@ theorem lookup_mem {l : List (Nat × Nat)} {w v : Nat} (hm : (w, v) ∈ l)
     obtain ⟨a, b⟩ := p
     rw [List.map_cons, List.nodup_cons] at hd
     rcases List.mem_cons.mp hm with h | h
-    · cases h; simp [List.lookup_cons]
+    · cases h; simp
     · have hne : (w == a) = false := by
         simp; intro e; subst e
         exact hd.1 (List.mem_map.mpr ⟨(w, v), h, rfl⟩)
